@@ -46,6 +46,22 @@ pub fn corr_c15(seed: u64, n: u64) {
             stats.case(&line, k > 1);
             stats.count("uneven");
             println!("{}", line);
+        } else if i % 4 == 2 {
+            // a varied walk: a finite list of distances (zero and negative ones included: clamped), cycled or used up
+            let len = curve_length(&c, 0.01).max(1e-3);
+            let d0 = len * rng.r(0.01, 1.0);
+            let max_error = d0 * rng.r(0.01, 0.25);
+            let k = rng.i(6) as usize;
+            let vs: Vec<f64> = (0..k).map(|_| match rng.i(6) { 0 => 0.0, 1 => -d0, _ => d0 * rng.r(0.2, 3.0) }).collect();
+            let cyc = rng.b();
+            let cap = 2000usize;
+            let secs: Vec<(f64, f64)> = if cyc { walk_curve_evenly(&c, d0, max_error).vary_by(vs.clone().into_iter().cycle()).take(cap).map(|s| s.original_curve_t_values()).collect() }
+                else { walk_curve_evenly(&c, d0, max_error).vary_by(vs.clone().into_iter()).take(cap).map(|s| s.original_curve_t_values()).collect() };
+            let mut line = format!("C15 vary R {} {} {} #{} #{}{}{} #{} | #{}", hxc(&c), hx(d0), hx(max_error), cyc as u8, k, if k > 0 { " " } else { "" }, hxs(&vs), cap, secs.len());
+            for (a, b) in &secs { line += &format!(" {} {}", hx(*a), hx(*b)); }
+            stats.case(&line, secs.len() > 1);
+            stats.count(&format!("vary.{}.{}", if cyc { "cycled" } else { "used_up" }, if vs.iter().any(|x| *x <= 0.0) { "with_distance<=0" } else { "positive" }));
+            println!("{}", line);
         } else {
             let len = curve_length(&c, 0.01).max(1e-3);
             let distance = len * rng.r(0.005, 2.0);
